@@ -8,11 +8,19 @@ UNSUPPORTED = re.compile(r"is not currently supported by Kani|unsupported_constr
 
 
 def prepare():
-    """Per-run preparation: lock file from /repo, registry regenerated."""
+    """Per-run preparation: lock file from the repository, registry regenerated, harness crate mirrored if VERIF_REPO is set."""
+    sh(["python3", os.path.join(VERIF, "gen_registry.py")])
+    if KANI_CRATE != KANI_CRATE_SRC:
+        os.makedirs(KANI_CRATE, exist_ok=True)
+        sh(["rsync", "-a", "--delete", "--exclude", "target", KANI_CRATE_SRC + "/", KANI_CRATE + "/"])
+        ct = os.path.join(KANI_CRATE, "Cargo.toml")
+        txt = open(ct).read().replace('path = "/repo"', 'path = "%s"' % os.path.realpath(REPO))
+        open(ct, "w").write(txt)
     lock = os.path.join(REPO, "Cargo.lock")
+    if not os.path.exists(lock):
+        lock = "/repo/Cargo.lock"
     if os.path.exists(lock):
         shutil.copyfile(lock, os.path.join(KANI_CRATE, "Cargo.lock"))
-    sh(["python3", os.path.join(VERIF, "gen_registry.py")])
 
 
 def parse_result_file(path):
@@ -97,7 +105,7 @@ def classify(res, harness_src_prefix="src/h_", must_cover=()):
 def run_harnesses(check_id, harnesses, features=(), jobs=None, timeout_s=900, harness_timeout_s=None, mem_gb=20, tag="main"):
     """harnesses: list of 'module::name'. Returns dict name -> parsed result (or None)."""
     prepare()
-    td = os.path.join(CACHE, "kt-%s-%s" % (check_id, tag))
+    td = os.path.join(CACHE, "kt-%s-%s%s" % (check_id, tag, CACHE_TAG))
     outdir = os.path.join(td, "result_output_dir")
     shutil.rmtree(outdir, ignore_errors=True)
     jobs = jobs or min(len(harnesses), NCPU)
@@ -123,7 +131,7 @@ def run_harnesses(check_id, harnesses, features=(), jobs=None, timeout_s=900, ha
 
 def concrete_values(check_id, harness, features=(), timeout_s=1800, mem_gb=30):
     """Re-run one failing harness with concrete playback; return list of scripts (each list of byte lists)."""
-    td = os.path.join(CACHE, "kt-%s-%s" % (check_id, "playback"))
+    td = os.path.join(CACHE, "kt-%s-%s%s" % (check_id, "playback", CACHE_TAG))
     cmd = ["cargo", "kani", "--target-dir", td, "-Z", "stubbing", "-Z", "concrete-playback",
            "--concrete-playback=print", "--exact", "--harness", harness]
     if features:
@@ -147,7 +155,7 @@ def build_replay(features=(), release=False):
     key = (tuple(features), release)
     if key in _built:
         return _built[key]
-    td = os.path.join(CACHE, "native")
+    td = os.path.join(CACHE, "native" + CACHE_TAG)
     cmd = ["cargo", "build", "--offline", "--target-dir", td, "--bin", "replay"]
     if release:
         cmd.append("--release")
